@@ -183,6 +183,22 @@ pub fn run(seed: u64, count: usize, max_n: usize, out: &mut impl Write) {
         let base0 = dir.join("g0");
         let mut a = vec![s("from"), s("arcs"), p(&base0), s("--num-nodes"), n.to_string(), s("-t"), t.clone()];
         a.extend(comp_args(&c0));
+        // malformed stream: the same input with a fault in the middle (a line that is not
+        // valid UTF-8, or a non-numeric field) must make the command fail, not ingest a prefix
+        if !arcs.is_empty() && rng.chance(1, 5) {
+            let cut = text.as_bytes().iter().enumerate().filter(|(_, b)| **b == b'\n').map(|(i, _)| i + 1)
+                .nth(rng.below(arcs.len().max(1))).unwrap_or(0);
+            let mut bad: Vec<u8> = text.as_bytes()[..cut].to_vec();
+            let kind = rng.below(2);
+            if kind == 0 { bad.extend_from_slice(&[b'3', b'\t', 0xFF, 0xFE, b'\n']); } else { bad.extend_from_slice(b"1\tx7\n"); }
+            bad.extend_from_slice(&text.as_bytes()[cut..]);
+            let baseb = dir.join("bad");
+            let mut ab = vec![s("from"), s("arcs"), p(&baseb), s("--num-nodes"), n.to_string(), s("-t"), t.clone()];
+            ab.extend(comp_args(&c0));
+            let eb = exec(&ab, Some(&bad), 60);
+            cx.note("from_arcs_badinput", &format!("badexit={} kind={} files={}", eb.code, if kind == 0 { "utf8" } else { "nonnumeric" },
+                baseb.with_extension("properties").exists() as u8));
+        }
         let e = exec(&a, Some(text.as_bytes()), 60);
         if arcs.is_empty() {
             // no arcs at all: recorded separately (the command writes nothing)
